@@ -12,6 +12,7 @@ CLAIMS = {
          "toward zero, and that mixed kinds are errors - for all 64-bit operands. Tied to objects.rs by running the real "
          "parser+interpreter and the extracted model on all ordered pairs of a boundary set (i64 and u64) under every "
          "operator, as literals and as variables, plus random pairs; debug and release profiles in the thorough tier."),
+ "C09": ("Theorems: != is the negation of ==; comparison of int/uint with double is the comparison of the exact numbers denoted (NaN unordered); trichotomy, <= iff < or ==, antisymmetry for all values; code-point order of strings; list and map equality characterised element-wise; unrelated kinds unequal and unordered; max/min bound lemma; transitivity for int/uint, strings and int-double-int chains (partial: chains with two doubles rely on SpecFloat.SFcompare, trusted). Tied to objects.rs/functions.rs by all pairs of a ~100-value boundary set through Value::eq/partial_cmp and 12 program forms, with the laws also evaluated on the implementation own answers (pairs and triples)."),
  "C06": ("Theorems that Eval.eval (a structural Fixpoint transcribing Value::resolve) returns the left operand's outcome "
          "and host-call log alone when && / || are decided by it, evaluates exactly one branch of ?:, and propagates a "
          "left error - for every context and operand expression, hence at every depth and inside macro bodies. Tied to the "
